@@ -247,6 +247,34 @@ impl Prop for C02 {
         ctx.obs.label(&format!("oracle-selftest:R1-R2-agreements={agreed}"));
         vec![]
     }
+    fn enumerations(&self, tier: Tier) -> Vec<(String, String, Box<dyn Iterator<Item = AstCase> + Send>)> {
+        // every small pattern over two letters, dot and a class, with every quantifier form, on every short input
+        let cfg = crate::enumerate::EnumCfg {
+            atoms: vec![
+                Node::Lit('a'),
+                Node::Lit('b'),
+                Node::Dot,
+                Node::Class(ClassExpr { neg: false, items: vec![Item::Char('a'), Item::Char('b')], sub: None }),
+            ],
+            quants: vec![(0, Some(1), true), (0, None, true), (1, None, true), (1, Some(2), true), (2, None, true), (0, Some(1), false), (0, None, false), (1, None, false), (1, Some(2), false)],
+            cap: true,
+            noncap: false,
+            alt: true,
+            backref: false,
+        };
+        let size = tier.pick(5, 6);
+        let nodes: Vec<Node> = crate::enumerate::up_to(&cfg, size).into_iter().filter(|n| !n.possibly_empty()).collect();
+        let inputs = crate::enumerate::inputs(&['a', 'b'], tier.pick(4, 5));
+        let scope = format!(
+            "all {} non-nullable ASTs of size <= {} over atoms {{a,b,.,[ab]}} x quantifiers {{?,*,+,{{1,2}},{{2,}},??,*?,+?,{{1,2}}?}} with groups and alternation x all {} inputs over {{a,b}} of length <= {}",
+            nodes.len(),
+            size,
+            inputs.len(),
+            tier.pick(4, 5)
+        );
+        let it = nodes.into_iter().map(move |node| AstCase { node, flags: String::new(), inputs: Inputs::Lit(inputs.clone()) });
+        vec![("exhaustive-small".into(), scope, Box::new(it))]
+    }
     fn check(&self, case: &AstCase, ctx: &mut Ctx) -> Verdict {
         check_spans("C02", case, ctx)
     }
